@@ -263,7 +263,15 @@ class Call(Leaf):
         return self.name
 
     def is_nullable(self) -> bool:
-        return self.grammar.rulemap[self.name]._nullable
+        rule = self.grammar.rulemap[self.name]
+        if getattr(rule, '_asking_nullable', False):
+            # NOTE: the rule is being asked already: this reference cannot make it nullable
+            return False
+        rule._asking_nullable = True
+        try:
+            return rule._nullable
+        finally:
+            rule._asking_nullable = False
 
     def optimized(self) -> Call:
         if not self._rule or not isinstance(self._rule.exp, Call):
